@@ -1,0 +1,11 @@
+//go:build verif
+
+package metadata
+
+// Test-only accessor for the verification harness (build tag verif).
+
+// VerifMetadata builds a Metadata over the default context with the protocols in the
+// given order (New sorts them; Validate is about the order, so the check needs unsorted values).
+func VerifMetadata(protocols []Protocol) Metadata {
+	return Metadata{mc: Default.(*metadataContext), protocols: protocols}
+}
